@@ -89,6 +89,8 @@ static const scen_t scenarios[] = {
    "12 level-0 files (repaired image): a writer that fills the write buffer stalls on the level-0 stop trigger until the compaction started at open completes", 3},
   {"D16", "B1", 1, "", "", {"P2.1", "P2.1", "B[P0.3,P1.3]"}, 0,
    "three writers, the last batch (140 KB) exceeds the group-commit size limit behind a small leader"},
+  {"D17", "B1", 4, "P0.1 F", "", {"g0 g0", "P0.1 C", "g0"}, 0,
+   "readers of a key that always exists while a writer overwrites it and a full compaction merges the two versions (the shadowed one is dropped)"},
   {"D2b", "B1", 4, "", "", {"B[P0.1,P1.1]", "B[D0,D1]", "t t"}, 0,
    "batch writer + batch deleter + iterator scanner (both keys or none)"},
 };
